@@ -95,6 +95,34 @@ fn probe(c: char, cfg: Cfg, out: &mut Outcome) {
             if r.is_some() || r2.is_some() {
                 fails.push(("probe-negative".into(), format!("[{c:?},{f:?}] matched the needle [{x:?}] ({r:?}/{r2:?}) although {c:?} normalizes to {e:?}")));
             }
+            // the same probes with the needle held in its ASCII representation (the common case: "a" vs "ä")
+            if e.is_ascii() {
+                let eb1 = [e as u8];
+                let eb2 = [e as u8, e as u8];
+                let a1 = Utf32Str::Ascii(&eb1);
+                let a2 = Utf32Str::Ascii(&eb2);
+                let r = m.fuzzy_match(Utf32Str::Unicode(&h1), a1);
+                let rg = m.fuzzy_match_greedy(Utf32Str::Unicode(&h1), a1);
+                if r != Some((16 + 2 * b0) as u16) || rg != Some((16 + 2 * b0) as u16) {
+                    fails.push(("probe-ascii-needle".into(), format!("fuzzy_match / greedy ([{c:?},{f:?}], Ascii[{e:?}]) = {r:?} / {rg:?}, expected Some({})", 16 + 2 * b0)));
+                }
+                idx.clear();
+                let r = m.fuzzy_indices(Utf32Str::Unicode(&h3), a2, &mut idx);
+                let exp = ref_score(&h3, &[1, 3], &profile).total;
+                if r != Some(exp as u16) || idx != [1, 3] {
+                    fails.push(("probe-ascii-needle".into(), format!("fuzzy_indices([f,{c:?},f,{c:?},f], Ascii[{e:?},{e:?}]) = {r:?} at {idx:?}, expected Some({exp}) at [1, 3]")));
+                }
+                idx.clear();
+                let r = m.substring_indices(Utf32Str::Unicode(&h4), a2, &mut idx);
+                if r.is_none() || idx != [0, 1] {
+                    fails.push(("probe-ascii-needle".into(), format!("substring_indices([{c:?},{c:?},f], Ascii[{e:?},{e:?}]) = {r:?} at {idx:?}, expected a match at [0, 1]")));
+                }
+                let r = m.prefix_match(Utf32Str::Unicode(&h4), a2);
+                let r2 = m.postfix_match(Utf32Str::Unicode(&h5), a2);
+                if (r.is_none() || r2.is_none()) && !c.is_whitespace() {
+                    fails.push(("probe-ascii-needle".into(), format!("prefix/postfix_match on {c:?}{c:?} with Ascii[{e:?},{e:?}] = {r:?} / {r2:?}, expected matches")));
+                }
+            }
             // ASCII haystack representation sees the same map
             if c.is_ascii() {
                 let hb = [c as u8, b'#'];
@@ -167,7 +195,7 @@ impl C16 {
             if norm(c, cfg) != c {
                 moved = true;
             }
-            out.sub_evals += 8;
+            out.sub_evals += 14;
             probe(c, cfg, &mut out);
             if thorough && norm(c, cfg) != c {
                 // the same probes under the path profile
@@ -200,7 +228,7 @@ impl Check for C16 {
         "C16"
     }
     fn rule(&self) -> String {
-        "exhaustive enumeration of all 1,112,064 Unicode scalar values (surrogates excluded), each under the four (ignore_case, normalize) settings: public per-character maps vs UCD-derived tables (simple case folding; NFKD ASCII base inside the documented blocks; identity outside; idempotence; ASCII fixed) and 8 probes per setting through public match functions (prefilter path, class-and-normalize scorer, optimal row setup, substring, exact, negative probe). Non-trivial: the character is changed by at least one setting; counted exactly (distinct by code point).".into()
+        "exhaustive enumeration of all 1,112,064 Unicode scalar values (surrogates excluded), each under the four (ignore_case, normalize) settings: public per-character maps vs UCD-derived tables (simple case folding; NFKD ASCII base inside the documented blocks; identity outside; idempotence; ASCII fixed) and 8-14 probes per setting through public match functions (prefilter path, class-and-normalize scorer, optimal row setup, substring, prefix/postfix, exact, negative probe; needle in both representations when it is ASCII). Non-trivial: the character is changed by at least one setting; counted exactly (distinct by code point).".into()
     }
     fn assumptions(&self) -> Vec<String> {
         vec![
